@@ -28,8 +28,15 @@ impl ToCoq for Del<i64, i64> {
     }
 }
 
+static CASE_NO: std::sync::atomic::AtomicUsize = std::sync::atomic::AtomicUsize::new(0);
+
 pub fn emit(sink: &mut CaseSink, nl: usize, nr: usize, lc: bool, rc: bool, dels: Vec<Del<i64, i64>>, tag: &str) {
-    let out = match drive_binary_start(nl as u64, nr as u64, lc, rc, dels.clone()) {
+    // one case in four runs with adaptive batching (2 ms) and 8 ms between deliveries: the
+    // receiver's timed waits expire in every state (they must be invisible but for FlushBatch)
+    let n = CASE_NO.fetch_add(1, std::sync::atomic::Ordering::Relaxed);
+    let adaptive = if n % 4 == 3 && dels.len() <= 40 { Some(2) } else { None };
+    sink.count(if adaptive.is_some() { "adaptive_with_timeouts" } else { "fixed_batching" });
+    let out = match drive_binary_start(nl as u64, nr as u64, lc, rc, dels.clone(), adaptive) {
         Ok(o) => o,
         Err(msg) => {
             sink.count("impl_failed");
